@@ -206,7 +206,7 @@ def build_record(v, np):
         return g.Polygon(rings) if cls == 'Polygon' else g.MultiPolygon([rings])
     if cls == 'Point' and 'x' in f:
         import spatialpandas.geometry as g
-        return g.Point([float(f['x']), float(f['y'])])
+        return g.Point(np.array([float(f['x']), float(f['y'])], dtype='float64'))
     if cls == 'slice':
         return slice(f.get('start'), f.get('stop'), f.get('step'))
     if cls in ('HilbertRtree', 'GeometryArrayTB'):
